@@ -15,7 +15,7 @@ import (
 
 func wroteOK(tag string) bool { return tag == "" || tag == "!lr" || tag == "!la" || tag == "!si" }
 
-func retryOracles(run *retryRun, cfg string, modelSettled, stuck, havePlan bool, waits []int) []PropResult {
+func retryOracles(run *retryRun, cfg string, modelSettled, stuck, havePlan bool, waits []int, plan []planPoint) []PropResult {
 	var v []PropResult
 	s := run.sc
 	st := run.rc.Stats()
@@ -30,6 +30,27 @@ func retryOracles(run *retryRun, cfg string, modelSettled, stuck, havePlan bool,
 		settled = last.accepted && !last.closed
 	}
 	disconnected := strings.Contains(script, "disc")
+	// C01.settles_within: from any reachable state, (faults left + 1) friendly reconnect rounds [timer, dial ok,
+	// CONNACK with session] reach an idle stable connection with every accepted request acknowledged — provided
+	// Disconnect is not called, the Connect context is not cancelled before the first success and the run is not
+	// blocked by a silent broker without a response timeout. If the script ends with at least (all faults + 2)
+	// such rounds and the model run has settled, the implementation must have settled too: being still busy (or
+	// idle with something unacknowledged) after that many friendly rounds is a concrete failure, not just a difference.
+	friendly := 0
+	for i := len(run.evs) - 1; i >= 1; i -= 2 {
+		if run.evs[i] == "ack+:1" && strings.HasPrefix(run.evs[i-1], "dial+:") {
+			friendly++
+		} else {
+			break
+		}
+	}
+	mustBeSettled := modelSettled && !disconnected && !stuck && !strings.Contains(script, "cancel") && !strings.HasSuffix(cfg, "w1") &&
+		friendly >= len(s.used)+len(s.faults)+2
+	if mustBeSettled && !settled {
+		v = append(v, viol("C01", "not-settled-after-friendly-tail", "after %d friendly reconnect rounds (faults in the plan: %d) the client is still not idle on a stable connection: queued tasks %d, queued retries %d, connections %d",
+			friendly, len(s.used)+len(s.faults), st.QueuedTasks, st.QueuedRetries, len(s.conns)))
+		settled = true // the rows below now state what is missing
+	}
 	allKept := true // every connection after the first kept the session
 	first := true
 	for _, ev := range run.evs {
@@ -91,6 +112,17 @@ func retryOracles(run *retryRun, cfg string, modelSettled, stuck, havePlan bool,
 	}
 
 	// ---------- C02: QoS 2 exactly once ----------
+	if mustBeSettled && allKept {
+		got := map[int]bool{}
+		for _, m := range s.broker.delivered {
+			got[m] = true
+		}
+		for m, q := range qosOf {
+			if q == 2 && !got[m] {
+				v = append(v, viol("C02", "qos2-never-delivered", "QoS 2 message %d was accepted and never delivered although the run ends with %d friendly reconnect rounds", m, friendly))
+			}
+		}
+	}
 	if allKept {
 		delivered := map[int]int{}
 		for _, m := range s.broker.delivered {
@@ -431,6 +463,12 @@ func retryOracles(run *retryRun, cfg string, modelSettled, stuck, havePlan bool,
 		var k, hh, m int
 		fmt.Sscanf(h, "%d:%d:%d", &k, &hh, &m)
 		handledBy[m] = append(handledBy[m], fmt.Sprint(hh))
+	}
+	if havePlan && len(plan) > 0 && !stuck && plan[len(plan)-1].h > len(s.handled) && len(run.planMiss) > 0 {
+		// the proved model hands more inbound messages to handlers than the implementation did: the script's
+		// later messages never reached a handler (e.g. because the client did not come back after a loss)
+		v = append(v, viol("C17", "handover-missing", "the script delivers %d inbound messages to registered handlers (model), the implementation handed over %d: %s",
+			plan[len(plan)-1].h, len(s.handled), run.planMiss[0]))
 	}
 	for m, want := range run.inboundAt {
 		got := handledBy[m]
